@@ -129,6 +129,9 @@ def run_post(kind: str, is_async: bool, mode: str, p0: int, d1: int, p1: int, sn
                     ok = False
                 elif tv("post", label[1], label[2], None):
                     ok = False
+    # contracts of the property's other accessors must never be evaluated for this accessor
+    if any(e[0] == "sibling" for e in rt.log):
+        ok = False
     witness = (body_raises and raised is not None) or (exp_out[0] == "violation" and raised is not None)
     note((kind, is_async, mode, p0, d1, p1, snaps, pre, bo, fg, tuple(rt.log), exp_out[0]), witness)
     return ok, witness
